@@ -160,6 +160,11 @@ def run(ctx):
         scripts = [gen_script(ctx.rng) for _ in range(n)]
         if ctx.thorough():
             scripts += exhaustive()
+        if ctx.broken:
+            # an obligation or the tie broke: search harder for a failing input. `select` among ready arms is the
+            # runtime's coin, not ours, so the same script is also replayed several times
+            more = [gen_script(ctx.rng) for _ in range(3 * n)]
+            scripts += more + [s for s in scripts[:n] if " x" in s] * 3
     ls.judge(ctx, scripts, evaluate)
     from checks import C06x
     C06x.run_extra(ctx)
